@@ -702,11 +702,12 @@ fn generate0(rng: &mut Rng, tier: Tier) -> Case {
         if late_pair {
             // the history declared a late word and a user of it; the rejected source defines the
             // late word and calls the user at build time (which binds the call site), then dies
-            redefinition = Some((
-                "late-bound-then-fail".into(),
-                ": zzpad 1 2 3 ; : hL1 424295 ; #( hL2 drop #) zzunknownword".into(),
-                "hL2".into(),
-            ));
+            redefinition = Some(match rng.below(3) {
+                0 => ("late-bound-then-fail".into(), ": zzpad 1 2 3 ; : hL1 424295 ; #( hL2 drop #) zzunknownword".into(), "hL2".into()),
+                // the bound instruction itself is what fails (a variable cannot be read in a meta block)
+                1 => ("late-bound-read-fails".into(), "424294 var hL1 #( hL2 drop #)".into(), "1 var qu 7 var hL1 hL2".into()),
+                _ => ("late-bound-const-then-fail".into(), "#( 424293 const hL1 #) #( hL2 drop 1 0 / #)".into(), ": qpad 5 ; : hL1 8 ; hL2".into()),
+            });
         }
         if let Some((_, _, probe)) = &redefinition {
             chosen.insert(0, probe.clone());
